@@ -94,12 +94,35 @@ func (fr *Frame) execBlock(b *ssa.BasicBlock, st *State, c string, in map[*ssa.B
 			fr.vals[x] = v
 		case *ssa.Defer:
 			if b != fr.fn.Blocks[0] {
-				unsupported("defer outside the entry block")
+				// a defer that only some paths reach: it runs at RunDefers exactly on the executions that passed
+				// here. Path conditions are formulas over globally named branch constants, and outside loops a
+				// block is executed at most once, so the condition at this point identifies those executions.
+				if fr.innermostLoop(b) != nil {
+					unsupported("defer inside a loop")
+				}
+				if fr.deferGuard == nil {
+					fr.deferGuard = map[*ssa.Defer]string{}
+				}
+				fr.deferGuard[x] = fx.name(c, "Bool", "dfr")
 			}
 			fr.defers = append(fr.defers, x)
 		case *ssa.RunDefers:
 			for i := len(fr.defers) - 1; i >= 0; i-- {
-				_, c = fr.call(&fr.defers[i].Call, fr.defers[i], st, c)
+				d := fr.defers[i]
+				g, conditional := fr.deferGuard[d]
+				if !conditional {
+					_, c = fr.call(&d.Call, d, st, c)
+					continue
+				}
+				st2 := st.clone()
+				_, c2 := fr.call(&d.Call, d, st2, and(c, g))
+				if c2 == "false" {
+					// the deferred call never returns on the executions that registered it
+					c = and(c, not(g))
+					continue
+				}
+				ms, _ := fr.mergeEdges([]edge{{nil, and(c, g), st2}, {nil, and(c, not(g)), st}}, "defer")
+				st.comp = ms.comp
 			}
 		case *ssa.If:
 			cv := fr.get(x.Cond).L[0]
